@@ -5,7 +5,7 @@ CHECK = {
                suite("add", "c11", 1500, 40000, stdin=True, args=["-suite", "add"])],
     "lean_sources": ["ClusterVerif/Model/Pin.lean", "ClusterVerif/Model/C11.lean", "ClusterVerif/Spec/C11.lean",
                      "ClusterVerif/Gen/C11.lean", "ClusterVerif/Lemmas/C11.lean"],
-    "rule": "routes suite: a fixed systematic sweep of 14.8k requests (every route template and 14 unknown paths x 7 methods x each path part valid/invalid x 47 credential situations = no credentials configured / two users / one user x the header grid {none, not base64, other scheme, no colon, known user x right|wrong|empty|other user's password, unknown user x configured|arbitrary|empty password, empty user x empty|right password, user name equal to a password, lower-case scheme}; "
+    "rule": "every case carries the server configuration sv=<Tracing><HTTPLogFile><TLS> (8 configurations, servers built on demand; a systematic sweep per non-default configuration, 1/3 of the random cases); routes suite: a fixed systematic sweep of 14.8k requests (every route template and 14 unknown paths x 7 methods x each path part valid/invalid x 47 credential situations = no credentials configured / two users / one user x the header grid {none, not base64, other scheme, no colon, known user x right|wrong|empty|other user's password, unknown user x configured|arbitrary|empty password, empty user x empty|right password, user name equal to a password, lower-case scheme}; "
             "every pin option valid / empty / each invalid variant and shadowing combinations on the 7 routes that parse pin options; local/filter values; "
             "JSON bodies; trailing-slash, unclean paths, CORS preflights; the three cluster answers) followed by seeded random requests "
             "(mostly-valid structured requests: route drawn with weights, 1/4 one path part invalid, 1/8 wrong method, options present w.p. ~0.2 of which 1/9 invalid, "
@@ -15,7 +15,7 @@ CHECK = {
     "trusted_base": ["recording RPC services behind the real rest.API on loopback listeners (in-process gorpc, no authorization layer); the bundled client against the same servers",
                      "net/http error log as panic detector",
                      "the harness's classification of each request part with cid.Decode / peer.Decode and its naming tables",
-                     "go/ast extractor extract_c11 (route table, wrapping order, RPC names per handler, decision logic of basicAuthHandler)"],
+                     "go/ast extractor extract_c11 (route table, handler chain per value of cfg.Tracing by symbolic execution of NewAPIWithHost, RPC names per handler, decision logic of basicAuthHandler)"],
     "assumptions": ["a repeated query parameter counts with its first occurrence; an empty value counts as absent",
                     "HTTP-defined bodiless responses (204, HEAD), CORS preflights and the 3xx redirect of a non-canonical path are exempt from the single-JSON-document clause",
                     "options that mean nothing to the addressed route (pin options on status/recover/unpin routes, local other than true/false, unknown filter) may be ignored or refused"],
